@@ -22,6 +22,8 @@ fn main() {
         ("c04", "replay") => yv::c04::replay(&args),
         ("c18", "record") => yv::c18::record(&args),
         ("c18", "replay") => yv::c18::replay(&args),
+        ("c03", "record") => yv::c03::record(&args),
+        ("c05", "record") => yv::c05::record(&args),
         _ => { eprintln!("unknown command {:?}", &a[..2]); std::process::exit(2); }
     }
 }
